@@ -106,10 +106,11 @@ func (f *c49Frame) calls() (n int) {
 }
 
 type c49Gen struct {
-	http     bool // HTTP mode: no subscriptions, block allowed when a timeout is set
-	timeout  bool
-	single   bool // the entry being drawn is a whole (non-batch) frame
-	subsMade *int
+	http      bool // HTTP mode: no subscriptions, block allowed when a timeout is set
+	timeout   bool
+	single    bool // the entry being drawn is a whole (non-batch) frame
+	sizeLimit int
+	subsMade  *int
 }
 
 var c49Sleeps = []int64{0, 0, 200_000, 1_000_000, 1_000_000, 2_000_000, 5_000_000, 10_000_000, 30_000_000}
@@ -118,10 +119,13 @@ var c49Sleeps = []int64{0, 0, 200_000, 1_000_000, 1_000_000, 2_000_000, 5_000_00
 func (g *c49Gen) genMethod(rt *rapid.T) (method, params, label string, sleepNs int64, sub bool) {
 	menu := []string{"echo", "echo", "null", "noargs", "rets", "nfecho", "modules", "error", "marshalerr", "unknown", "unknown2", "badparams",
 		"objparams", "longname", "panic", "sleep", "sleep", "sleep", "sleepctx", "spin", "large", "large"}
+	if g.sizeLimit != 0 {
+		menu = append(menu, "large", "large", "large", "large", "large")
+	}
 	if g.http {
 		menu = append(menu, "subscribe") // answered with an error over HTTP
 		if g.timeout {
-			menu = append(menu, "block", "block")
+			menu = append(menu, "block", "block", "sleep", "sleep", "sleep", "sleepctx", "sleepctx", "sleepctx")
 		}
 	} else {
 		menu = append(menu, "subscribe", "subscribe", "subscribe", "unsubscribe", "badsubscribe")
@@ -356,8 +360,17 @@ func c49ParseWrite(b []byte) (c49Write, error) {
 }
 
 func c49Clip(s string) string {
-	if len(s) > 300 {
-		return s[:300] + fmt.Sprintf("...(%d bytes)", len(s))
+	for _, run := range []string{"x", "n"} { // long filler runs of large results / long method names
+		if i := strings.Index(s, strings.Repeat(run, 64)); i >= 0 {
+			j := i
+			for j < len(s) && s[j] == run[0] {
+				j++
+			}
+			return c49Clip(s[:i] + fmt.Sprintf("<%s*%d>", run, j-i) + s[j:])
+		}
+	}
+	if len(s) > 6000 {
+		return s[:6000] + fmt.Sprintf("...(%d bytes)", len(s))
 	}
 	return s
 }
@@ -483,7 +496,7 @@ func TestVerifC49Conn(t *testing.T) {
 	vs.Check(t, 1, func(rt *rapid.T) {
 		c := st.Case()
 		runtime.GOMAXPROCS(rapid.SampledFrom([]int{1, 2, 4, 16}).Draw(rt, "gomaxprocs"))
-		itemLimit := rapid.SampledFrom([]int{0, 0, 3, 10}).Draw(rt, "itemLimit")
+		itemLimit := rapid.SampledFrom([]int{0, 0, 0, 3, 10, 10}).Draw(rt, "itemLimit")
 		sizeLimit := rapid.SampledFrom([]int{0, 0, 1024, 200 * 1024}).Draw(rt, "sizeLimit")
 		server := newTestServer()
 		defer server.Stop()
@@ -494,7 +507,7 @@ func TestVerifC49Conn(t *testing.T) {
 
 		// script
 		subs := 0
-		g := &c49Gen{subsMade: &subs}
+		g := &c49Gen{subsMade: &subs, sizeLimit: sizeLimit}
 		nframes := rapid.IntRange(1, 12).Draw(rt, "frames")
 		singleIDs := []string{`1`, `1`, `2`, `"a"`, `null`, `1.5`, `true`, `""`, `"A"`, `-0`}
 		var frames []*c49Frame
@@ -812,7 +825,7 @@ func TestVerifC49HTTP(t *testing.T) {
 	vs.Check(t, 1, func(rt *rapid.T) {
 		c := st.Case()
 		runtime.GOMAXPROCS(rapid.SampledFrom([]int{1, 2, 4, 16}).Draw(rt, "gomaxprocs"))
-		itemLimit := rapid.SampledFrom([]int{0, 0, 3, 10}).Draw(rt, "itemLimit")
+		itemLimit := rapid.SampledFrom([]int{0, 0, 0, 3, 10, 10}).Draw(rt, "itemLimit")
 		sizeLimit := rapid.SampledFrom([]int{0, 0, 1024, 200 * 1024}).Draw(rt, "sizeLimit")
 		server := newTestServer()
 		defer server.Stop()
@@ -824,7 +837,7 @@ func TestVerifC49HTTP(t *testing.T) {
 		// one request: a single message or a batch
 		hasTimeout := rapid.IntRange(0, 9).Draw(rt, "hasTimeout") < 8
 		subs := 0
-		g := &c49Gen{http: true, timeout: hasTimeout, subsMade: &subs}
+		g := &c49Gen{http: true, timeout: hasTimeout, subsMade: &subs, sizeLimit: sizeLimit}
 		ids := []string{`1`, `1`, `2`, `"a"`, `null`, `1.5`, `true`, `""`}
 		f := &c49Frame{}
 		switch rapid.SampledFrom([]string{"single", "batch", "batch", "batch", "batch", "empty"}).Draw(rt, "frameShape") {
@@ -842,12 +855,6 @@ func TestVerifC49HTTP(t *testing.T) {
 			f.batch = true
 		}
 		f.render()
-		if hasTimeout && !f.batch && f.entries[0].kind == "notif" && vs.Known("TestVerifC49HTTP", "single-notification-timeout") {
-			// known finding (notes/C49.md): the timeout callback of handleNonBatchCall answers
-			// notifications. Excluded by construction: single notifications run without timeout.
-			hasTimeout = false
-			st.Excluded()
-		}
 		// timeout: drawn around the cumulative sleep at a drawn position of the script
 		var timeout time.Duration
 		near := false
@@ -1009,5 +1016,42 @@ func TestVerifX49FindingNotificationTimeout(t *testing.T) {
 	server.ServeHTTP(rw, req)
 	for _, w := range rw.writes {
 		t.Errorf("notification was answered: %s", w)
+	}
+}
+
+// TestVerifX49FindingBatchTimeoutRace measures how often a batch loses responses when the
+// request timeout fires while a context-aware method is running (not part of the C49 run
+// regex; see notes/C49.md "Suspected defect").
+func TestVerifX49FindingBatchTimeoutRace(t *testing.T) {
+	c49Quiet()
+	server := newTestServer()
+	defer server.Stop()
+	if err := server.RegisterName("v", c49Service{}); err != nil {
+		t.Fatal(err)
+	}
+	body := `[{"jsonrpc":"2.0","id":1,"method":"v_sleepCtx","params":[30000000]},{"jsonrpc":"2.0","id":2,"method":"test_echo","params":["x",1,null]}]`
+	lost := 0
+	const rounds = 3000
+	for i := 0; i < rounds; i++ {
+		ctx := context.WithValue(context.Background(), http.ServerContextKey, &http.Server{WriteTimeout: 101 * time.Millisecond}) // request timeout 1ms
+		req := httptest.NewRequest(http.MethodPost, "/", strings.NewReader(body)).WithContext(ctx)
+		req.Header.Set("content-type", "application/json")
+		rw := &c49RespWriter{hdr: http.Header{}}
+		server.ServeHTTP(rw, req)
+		n := 0
+		for _, b := range rw.writes {
+			if w, err := c49ParseWrite(b); err == nil {
+				n += len(w.objs)
+			}
+		}
+		if n != 2 {
+			lost++
+			if lost == 1 {
+				t.Logf("first loss in round %d: writes=%q", i, rw.writes)
+			}
+		}
+	}
+	if lost > 0 {
+		t.Errorf("%d of %d two-call batches were answered with fewer than 2 response objects", lost, rounds)
 	}
 }
